@@ -267,6 +267,40 @@ pub fn fi_u64_and_strings(ctx: &Ctx) {
         }
     };
     let n2 = fi_typed::<String>(ctx, "String", true, &s, &|x: &String| x.as_bytes().to_vec());
+    // every constructor-accepted map size (any power of two): the sketch's own image must be
+    // readable and answer the same
+    let mut n3 = 0u64;
+    for lg in 0..usize::BITS {
+        n3 += 1;
+        let mk = || json!({"kind":"fi_size","max_map_size_lg":lg});
+        let r = catch(|| {
+            let mut s = FrequentItemsSketch::<i64>::new(1usize << lg);
+            for i in 0..30 {
+                s.update_with_count(i % 11, 1 + (i as u64 % 3));
+            }
+            let img = s.serialize();
+            let d = FrequentItemsSketch::<i64>::deserialize(&img);
+            (s, img, d)
+        });
+        match r {
+            Err(p) => {
+                ctx.violation(&format!("panic|{}", p.site_key()), &format!("FrequentItemsSketch::new(1 << {lg}) history panicked: {}", p.message), mk());
+            }
+            Ok((_, img, Err(e))) => {
+                let mut v = mk();
+                v["image_hex"] = Value::String(crate::common::hex(&img));
+                ctx.violation("fi.roundtrip.rejected.map_size", &format!("new(1 << {lg}): deserialize(serialize(s)) fails: {e}"), v);
+            }
+            Ok((s, _, Ok(d))) => {
+                let q = |k: &FrequentItemsSketch<i64>| (k.total_weight(), k.maximum_error(), k.num_active_items(), k.lg_max_map_size(), k.maximum_map_capacity(), k.current_map_capacity(), (0..12).map(|x| (k.lower_bound(&x), k.upper_bound(&x))).collect::<Vec<_>>());
+                if q(&s) != q(&d) {
+                    ctx.violation("fi.roundtrip.queries.map_size", &format!("new(1 << {lg}): queries differ after a round trip: {:?} vs {:?}", q(&s), q(&d)), mk());
+                }
+            }
+        }
+    }
+    ctx.add_states(n3);
+    ctx.add_transitions(n3);
     ctx.count("Frequent Items u64/String histories (size x history x via merge)", n1 + n2);
     ctx.add_states(n1 + n2);
     ctx.add_transitions(n1 + n2);
